@@ -32,6 +32,8 @@ def run(tier, seed, replay=None):
              "then the complete product of operand pairs over 24 boundary int64 (0, +-1, cache edges, +-2^31, 2^32, +-(2^53+-1), "
              "2^62, +-2^63 edges, shift counts 63/64/65), 18 float64 (+-0, +-Inf, NaN, subnormal, beyond 2^53, 2^63), 8 strings, "
              "true/false/nil = 53x53 pairs, each under all 15 binary operators and the 3 unary ones (errors mapped to a marker "
-             "with ??), then random operator trees of depth <= 4 over the same leaves; values compared with dynamic type and "
+             "with ??), operands held in variables; then the same pairs with the operands arriving as list elements, nested elements, function "
+             "results, map entries or bare literals (quick: one shape for a third of the pairs; thorough: every pair under every shape), then "
+             "random operator trees of depth <= 4 over the same leaves (a quarter of the leaves read back from a list or map literal); values compared with dynamic type and "
              "float bits (NaN one class); string repetition by huge counts is excluded (astronomical allocation)",
         design_ref="DESIGN.md §4 C05", expectations=EXPECT, max_dropped=0.05)
